@@ -11,6 +11,14 @@ Three kinds of cases
          identity-when-nothing-is-discarded and the error bound are checked against an independent
          dense contraction; every call of truncate_singular_values made on the way is recorded and
          re-derived by the oracle (and, where the float comparison is exact, by the Coq model).
+  hist : HISTORIES around the tree-level routines (oracle only, no model tie): ONE SVDParameters object is
+         handed to 1..3 consecutive truncations (fresh states of different sizes, or the state the previous
+         truncation left) and finally to a direct truncate_singular_values call; every state is prepared by a
+         history of public operations (canonical_form, move_orthogonalization_center, absorb_into_open_legs
+         with unitary / general / diagonal / rank-deficient operators, absorb_matrix on a virtual or open leg,
+         replace_tensor, rescaling to a given norm) that ends with the caller's own canonical_form.  Every truncation of the history is judged like
+         a tree case, with the parameter VALUES the caller put into the object and the dense state right
+         before the call as the reference.
 """
 from __future__ import annotations
 
@@ -560,7 +568,16 @@ class C10(Prop):
             "random parameters, the three contraction modes. "
             "tree: random trees (1..7 nodes), random bond/physical dimensions, random norm scale, both routines, random "
             "parameters; every tree case is also built through wmodel.Driver (shuffled legs, optional canonical form at the root / "
-            "another node / none) and run step-tied against the Coq programs of TTN/TruncTree.v. non-trivial: sv = at least two values, tsvd = matricisation with both sides >= 2, tree = at least one bond; "
+            "another node / none) and run step-tied against the Coq programs of TTN/TruncTree.v. "
+            "hist (oracle only): one SVDParameters object shared by 1..3 consecutive tree truncations (each of a freshly built "
+            "state of its own size, 1..6 nodes, or of the state the previous truncation left; routine chosen per truncation) "
+            "and a final direct truncate_singular_values call on a random dyadic spectrum; each state is prepared by a random "
+            "history of public operations -- canonical_form (often to the node that already is the recorded centre), "
+            "move_orthogonalization_center, absorb_into_open_legs with unitary / general (singular values 1..100) / diagonal "
+            "/ rank-deficient operators, absorb_matrix (2x2, any leg of dimension 2, virtual legs included), replace_tensor with a "
+            "random tensor, rescaling to norm 0.01..10 at the recorded "
+            "centre -- ending with the caller's canonical_form whenever a tensor was modified; every truncation judged by "
+            "the tree oracle with the parameter values of the case and the dense state right before the call. non-trivial: sv = at least two values, tsvd = matricisation with both sides >= 2, tree = at least one bond, hist = some state with a bond; "
             "distinct by content")
     clauses = [
         ("F", "kept part is a non-empty prefix of the descending spectrum, second component the complementary suffix, "
@@ -629,6 +646,13 @@ class C10(Prop):
               "runtime check against an independent dense contraction"),
         ("V", "tree level, no renormalisation: ||psi - psi'|| <= (sum of all discarded values) * max(1, ||psi||): runtime check; "
               "the discarded values are re-derived by the oracle from the recorded full spectra"),
+        ("V", "tree level, histories (kind hist, oracle only): all the tree-level clauses above (structure, bond limits, each "
+              "recorded truncate_singular_values call = the rule of the text for the parameter VALUES the caller chose, identity "
+              "when nothing is discarded, error bound) hold for every truncation of a history in which one SVDParameters object is "
+              "reused across several truncations of different states and a later direct truncate_singular_values call, and in "
+              "which the truncated state was reached through canonical_form / centre moves / in-place operator applications / "
+              "tensor replacement / rescaling followed by the caller's canonical_form (reference: dense contraction of the state "
+              "right before each call): runtime check"),
         ("V", "truncated_tensor_svd / contr_truncated_svd_splitting on random tensors and leg bipartitions: number of kept values "
               "= the rule applied to the harness' own singular values, U/Vh sliced to isometries of that width, U S Vh = (rescaled) "
               "best rank-k approximation, ||T - U S Vh|| = Frobenius weight of the discarded values <= their sum, the three "
@@ -661,6 +685,10 @@ class C10(Prop):
         "recursive_truncation names its temporaries after the bond ('<c>_identity_<n>', '<n>_projectorstar_<c>', "
         "'<n>_projector_<c>'): the caller's identifiers must not collide with them and they must differ from each other "
         "(tmp_fresh / tmp_inj in the theorems; true for the harness' identifiers, checked per instance)",
+        "histories (kind hist): a state whose tensors were modified in place after the library recorded an orthogonality centre "
+        "is handed to a truncation routine only after the caller has called canonical_form again (replace_tensor, "
+        "absorb_matrix and the truncation routines themselves keep orthogonality_center_id although the state is no longer "
+        "canonical there; a state with a stale recorded centre is outside the explored inputs)",
         "parameters outside the validated domain (negative finite tolerances, max_bond_dim=0, nan) are only reachable by "
         "assigning dataclass attributes after construction; they are tied to the model but outside the property oracle",
     ]
@@ -681,6 +709,74 @@ class C10(Prop):
                     for sr in (False, True):
                         g.append((m, "0", t, rn, True, sr))
         return g
+
+    # ---- hist: histories around the tree-level routines ----------------------------------------------------
+    @staticmethod
+    def _tree_params(rng):
+        """parameter values of a hist case (decimal strings; float(...) of them is what the code receives)"""
+        mode = rng.random()
+        if mode < 0.15:                          # nothing can be discarded
+            return dict(mbd="inf", rel="-inf", tot="-inf", sum_trunc=False)
+        if mode < 0.25:                          # only exact zeros / noise can be discarded
+            return dict(mbd="inf", rel=rng.choice(["0", "1e-15", "-inf"]), tot=rng.choice(["0", "1e-15"]), sum_trunc=False)
+        return dict(mbd=rng.choice([1, 2, 2, 3, 4, "inf"]),
+                    rel=rng.choice(["-inf", "0", "1e-15", "0.05", "0.125", "0.25", "0.5"]),
+                    tot=rng.choice(["-inf", "0", "1e-15", "0.1", "0.5", "2"]), sum_trunc=rng.random() < 0.35)
+
+    def _gen_hist(self, rng):
+        """ONE SVDParameters object, 1..3 consecutive truncations (each of a freshly built state or of the state the
+        previous truncation left), each state prepared by a history of public operations, then one direct
+        truncate_singular_values call with the same object"""
+        runs = []
+        n = None
+        for r in range(rng.choice([1, 2, 2, 3])):
+            run = {"algo": rng.choice(["rec", "svd"])}
+            if r > 0 and rng.random() < 0.3:
+                run["tree"] = "same"
+            else:
+                n = rng.choice([1, 2, 2, 3, 3, 4, 4, 5, 6])
+                run.update(tree="new", parents=util.random_parents(rng, n), bond=rng.choice([None, None, 1, 2, 3, 4]),
+                           scale=rng.choice([1.0, 1.0, 0.05, 0.3, 4.0]))
+            # the centre the caller establishes last: recursive_truncation canonicalises to the root by itself unless the
+            # root is the recorded centre, svd_truncation starts from wherever the recorded centre is
+            X = 0 if (run["algo"] == "rec" and rng.random() < 0.7) else rng.randrange(n)
+            prep = []
+            if run["tree"] == "new" and rng.random() < 0.25:
+                # fresh state, recorded centre (if any) established by the library on unmodified tensors
+                if run["algo"] == "svd" or rng.random() < 0.5:
+                    prep.append(["canon", X])
+                if prep and rng.random() < 0.3:
+                    prep.append(["move", rng.randrange(n)])
+            else:
+                # canonical form, in-place modifications through the public API, canonical form again
+                if run["tree"] == "new" or rng.random() < 0.5:
+                    prep.append(["canon", X if rng.random() < 0.75 else rng.randrange(n)])
+                for _ in range(rng.randint(0 if run["tree"] == "same" else 1, 4)):
+                    k = rng.randrange(n)
+                    what = rng.choice(["absorb", "absorb", "replace", "replace", "legmat", "legmat", "move", "norm", "canon"])
+                    if what == "norm":             # rescale the state to the given norm (at the recorded centre, else the root)
+                        prep.append(["norm", rng.choice([0.01, 0.1, 1.0, 1.0, 10.0])])
+                    elif what == "canon":
+                        prep.append(["canon", X if rng.random() < 0.5 else k])
+                    elif what == "absorb":
+                        prep.append(["absorb", k, rng.choice(["unitary", "general", "general", "diag", "lowrank"]),
+                                     rng.choice([1, 3, 10, 100])])
+                    elif what == "replace":
+                        prep.append(["replace", k, rng.choice([0.1, 1.0, 10.0])])
+                    elif what == "legmat":         # absorb_matrix on one (virtual or open) leg of the node
+                        prep.append(["legmat", k, rng.randrange(8), rng.choice(["unitary", "general", "diag"]),
+                                     rng.choice([1, 3, 10, 100])])
+                    elif prep:
+                        prep.append(["move", k])
+                if rng.random() < 0.55:                # the caller normalises (or scales down) before truncating
+                    prep.append(["norm", rng.choice([0.01, 0.1, 1.0, 1.0])])
+                prep.append(["canon", X])
+            run["prep"] = prep
+            runs.append(run)
+        probe = sorted([Fraction(rng.randint(0, 24), 8) for _ in range(rng.randint(1, 8))], reverse=True)
+        return {"kind": "hist", "seed": rng.randrange(10 ** 9), "complex": rng.random() < 0.7, "runs": runs,
+                "probe": [str(x) for x in probe], "renorm": rng.random() < 0.15, "sum_renorm": rng.random() < 0.5,
+                **self._tree_params(rng)}
 
     def generate(self, ctx, stream, budget_scale=1):
         rng = ctx.rng(stream)
@@ -798,6 +894,10 @@ class C10(Prop):
         for c in cases:
             if c["kind"] == "tree":
                 c["wtie"] = True
+        # histories (oracle only): one parameter object across several truncations, states prepared by public operations
+        nhist = (ctx.scale(250, 4000) if stream == "main" else 200) * budget_scale
+        for i in range(nhist):
+            cases.append(self._gen_hist(rng))
         return cases
 
     def nontrivial(self, case):
@@ -805,6 +905,8 @@ class C10(Prop):
             return len(case["s"]) >= 2
         if case["kind"] == "tree":
             return len(case["parents"]) >= 2
+        if case["kind"] == "hist":
+            return any(len(r.get("parents", [])) >= 2 for r in case["runs"])
         if case["kind"] == "tsvd":
             return min(int(np.prod([case["shape"][i] for i in case["u_legs"]])),
                        int(np.prod([case["shape"][i] for i in case["v_legs"]]))) >= 2
@@ -833,12 +935,24 @@ class C10(Prop):
             elif x["kind"] == "tree":
                 c["tree:" + x["algo"]] += 1
                 c["tree:nodes=%d" % len(x["parents"])] += 1
+            elif x["kind"] == "hist":
+                c["hist:runs=%d" % len(x["runs"])] += 1
+                c["hist:mbd=" + ("inf" if x["mbd"] == "inf" else "int")] += 1
+                for r in x["runs"]:
+                    c["hist-run:" + r["algo"] + (":same tree again" if r["tree"] == "same" else "")] += 1
+                    kinds = [o[0] for o in r["prep"]]
+                    if any(k in ("absorb", "replace", "legmat") for k in kinds):
+                        c["hist-run:modified in place, then canonical_form"] += 1
+                    elif not kinds:
+                        c["hist-run:fresh state, no recorded centre"] += 1
         for why, k in getattr(self, "dropped", {}).items():
             c["not in the exact tie (float-unsafe):" + why] += k
         for why, k in getattr(self, "boundary_dev", {}).items():
             c["float-unsafe case outcome:" + why] += k
         for k, v in getattr(self, "tree_stats", {}).items():
             c["tree-observed:" + k] += v
+        for k, v in getattr(self, "hist_stats", {}).items():
+            c["hist-observed:" + k] += v
         for k, v in getattr(self, "wtie_stats", {}).items():
             c["tree-layer-W:" + k] += v
         return dict(c)
@@ -945,36 +1059,14 @@ class C10(Prop):
             ob["tb"] = traceback.format_exc()[-1200:]
         return ob
 
-    def _tree_impl(self, case):
+    @staticmethod
+    def _trunc_run(work, ids, rid, struct0, before, algo, p):
+        """run one tree-level routine on `work` with the parameter object `p`, recording every truncate_singular_values
+        call and every bond handled; observation fields shared by the tree and hist kinds"""
         from pytreenet.util import tensor_splitting as ts
         from pytreenet.core.truncation.recursive_truncation import recursive_truncation
         from pytreenet.core.truncation.svd_truncation import svd_truncation
-        rng = random.Random(case["seed"])
-        par = case["parents"]
-        n = len(par)
-        bond = case["bond"]
-        ttns = util.build_ttns(rng, par, bond=bond, complex_=case["complex"])
-        ids = sorted(ttns.nodes)
-        if case["lowrank"] and n >= 2:
-            # make one bond rank-deficient: zero one slice of a child's parent leg
-            c = rng.randrange(1, n)
-            t = ttns.tensors[f"n{c}"]
-            if t.shape[0] >= 2:
-                t = t.copy()
-                t[-1, ...] = 0
-                ttns.tensors[f"n{c}"] = t
-        rid = ttns.root_id
-        ttns.tensors[rid] = ttns.tensors[rid] * case["scale"]
-        before = util.dense_vec(ttns, ids)
-        struct0 = util.structure_unordered(ttns)
-        p, verdict = make_params(mbd_value(case["mbd"]), float(case["rel"]), float(case["tot"]), case["renorm"],
-                                 case["sum_trunc"], case["sum_renorm"])
-        ob = {"n": n, "norm": float(np.linalg.norm(before)), "verdict": verdict}
-        work = copy.deepcopy(ttns)
-        if case["algo"] == "svd":
-            work.canonical_form(f"n{case['centre']}")
-            canon = util.dense_vec(work, ids)
-            ob["canon_dev"] = float(np.linalg.norm(canon - before))
+        ob = {}
         import pytreenet.core.truncation.recursive_truncation as rt_mod
         import pytreenet.core.truncation.svd_truncation as st_mod
         calls = []
@@ -1002,7 +1094,7 @@ class C10(Prop):
             with warnings.catch_warnings():
                 warnings.simplefilter("ignore")
                 with np.errstate(all="ignore"):
-                    res = (recursive_truncation if case["algo"] == "rec" else svd_truncation)(work, p)
+                    res = (recursive_truncation if algo == "rec" else svd_truncation)(work, p)
             ob["returns_same_object"] = res is work
             after = util.dense_vec(work, ids)
             ob["err"] = float(np.linalg.norm(after - before))
@@ -1036,6 +1128,39 @@ class C10(Prop):
             rt_mod.get_truncation_projector, st_mod.contract_and_split_with_parent = orig_gp, orig_cs
         ob["calls"] = calls
         ob["visits"] = visits
+        return ob
+
+    def _tree_impl(self, case):
+        from pytreenet.util import tensor_splitting as ts
+        from pytreenet.core.truncation.recursive_truncation import recursive_truncation
+        from pytreenet.core.truncation.svd_truncation import svd_truncation
+        rng = random.Random(case["seed"])
+        par = case["parents"]
+        n = len(par)
+        bond = case["bond"]
+        ttns = util.build_ttns(rng, par, bond=bond, complex_=case["complex"])
+        ids = sorted(ttns.nodes)
+        if case["lowrank"] and n >= 2:
+            # make one bond rank-deficient: zero one slice of a child's parent leg
+            c = rng.randrange(1, n)
+            t = ttns.tensors[f"n{c}"]
+            if t.shape[0] >= 2:
+                t = t.copy()
+                t[-1, ...] = 0
+                ttns.tensors[f"n{c}"] = t
+        rid = ttns.root_id
+        ttns.tensors[rid] = ttns.tensors[rid] * case["scale"]
+        before = util.dense_vec(ttns, ids)
+        struct0 = util.structure_unordered(ttns)
+        p, verdict = make_params(mbd_value(case["mbd"]), float(case["rel"]), float(case["tot"]), case["renorm"],
+                                 case["sum_trunc"], case["sum_renorm"])
+        ob = {"n": n, "norm": float(np.linalg.norm(before)), "verdict": verdict}
+        work = copy.deepcopy(ttns)
+        if case["algo"] == "svd":
+            work.canonical_form(f"n{case['centre']}")
+            canon = util.dense_vec(work, ids)
+            ob["canon_dev"] = float(np.linalg.norm(canon - before))
+        ob.update(self._trunc_run(work, ids, rid, struct0, before, case["algo"], p))
         # ---- BEGIN Layer-W tie (TTN/TruncTree.v) -------------------------------------------------
         if case.get("wtie"):
             try:
@@ -1046,9 +1171,120 @@ class C10(Prop):
         # ---- END Layer-W tie ---------------------------------------------------------------------
         return ob
 
+    @staticmethod
+    def _centre_defect(tree, centre):
+        """largest deviation from an isometry (legs away from `centre` -> leg towards it) over the tensors other than
+        the centre's: 0 for a state that is canonical at `centre` (independent numpy check, diagnostic only)"""
+        chain = [centre]
+        while tree.nodes[chain[-1]].parent is not None:
+            chain.append(tree.nodes[chain[-1]].parent)
+        worst = 0.0
+        for nid, node in tree.nodes.items():
+            if nid == centre:
+                continue
+            towards = chain[chain.index(nid) - 1] if nid in chain else node.parent
+            t = np.moveaxis(np.asarray(tree.tensors[nid]), node.neighbour_index(towards), -1)
+            m = t.reshape(-1, t.shape[-1])
+            worst = max(worst, float(np.max(np.abs(m.conj().T @ m - np.eye(m.shape[1])))) if m.size else 0.0)
+        return worst
+
+    def _hist_impl(self, case):
+        from pytreenet.util import tensor_splitting as ts
+        p, verdict = make_params(mbd_value(case["mbd"]), float(case["rel"]), float(case["tot"]), case["renorm"],
+                                 case["sum_trunc"], case["sum_renorm"])
+        ob = {"verdict": verdict, "runs": []}
+        work = None
+        for j, run in enumerate(case["runs"]):
+            rng = random.Random(case["seed"] * 31 + j)
+            nprs = np.random.RandomState(rng.randrange(2 ** 31))
+            if run["tree"] == "new":
+                par = run["parents"]
+                work = util.build_ttns(rng, par, bond=run["bond"], complex_=case["complex"])
+                work.tensors[work.root_id] = work.tensors[work.root_id] * run["scale"]
+            elif work is None:
+                ob["runs"].append({"skipped": "no state left by the previous run"})
+                continue
+            n = len(par)
+            ids = sorted(f"n{i}" for i in range(n))
+            ro = {"n": n, "verdict": verdict, "parents": par}
+            try:
+                for op in run["prep"]:
+                    nid = f"n{op[1]}"
+                    if op[0] == "norm":
+                        # what TTNS.normalise does (scale the recorded centre, else the root), with the norm taken from the
+                        # independent dense contraction and the factor applied through absorb_into_open_legs
+                        cur = float(np.linalg.norm(util.dense_vec(work, ids)))
+                        nid = work.orthogonality_center_id or work.root_id
+                        if cur > 0 and math.isfinite(cur):
+                            d = work.nodes[nid].open_dimension()
+                            work.absorb_into_open_legs(nid, np.eye(d) * (float(op[1]) / cur))
+                    elif op[0] == "canon":
+                        ro["centre_before_last_canon"] = work.orthogonality_center_id
+                        work.canonical_form(nid)
+                    elif op[0] == "move":
+                        if work.orthogonality_center_id is not None:      # no recorded centre: nothing the caller could move
+                            work.move_orthogonalization_center(nid)
+                    elif op[0] in ("absorb", "legmat"):
+                        if op[0] == "absorb":
+                            d, kind, mag = work.nodes[nid].open_dimension(), op[2], float(op[3])
+                        else:
+                            # absorb_matrix accepts 2x2 matrices only (it tests len(matrix) != 2): legs of dimension 2
+                            legs = [a for a, dd in enumerate(work.nodes[nid].shape) if dd == 2]
+                            if not legs:
+                                continue
+                            leg, d, kind, mag = legs[op[2] % len(legs)], 2, op[3], float(op[4])
+                        m = util.rand_tensor(nprs, (d, d), case["complex"])
+                        u, sv, vh = np.linalg.svd(m)
+                        if kind == "unitary":
+                            m = u @ vh
+                        elif kind == "general":                # singular values spread over the given range
+                            m = (u * np.geomspace(1.0, mag, d)[::-1]) @ vh
+                        elif kind == "diag":
+                            m = np.diag(np.geomspace(1.0, mag, d)).astype(m.dtype)
+                        else:                                  # rank-deficient operator
+                            m = (u * np.array([mag] * max(1, d - 1) + [0.0] * (d - max(1, d - 1)))) @ vh
+                        if op[0] == "absorb":
+                            work.absorb_into_open_legs(nid, m)
+                        else:
+                            work.absorb_matrix(nid, m, leg)
+                    elif op[0] == "replace":
+                        shape = tuple(work.nodes[nid].shape)
+                        work.replace_tensor(nid, util.rand_tensor(nprs, shape, case["complex"]) * float(op[2]))
+                rid = work.root_id
+                before = util.dense_vec(work, ids)
+                ro["norm"] = float(np.linalg.norm(before))
+                c = work.orthogonality_center_id
+                ro["centre"] = c
+                if c is not None and run["prep"] and run["prep"][-1][0] == "canon":
+                    ro["defect"] = self._centre_defect(work, c)
+                struct0 = util.structure_unordered(work)
+            except Exception as e:  # noqa
+                import traceback
+                ro["prep_exception"] = f"{type(e).__name__}: {e}"
+                ro["tb"] = traceback.format_exc()[-1200:]
+                ob["runs"].append(ro)
+                work = None
+                continue
+            ro.update(self._trunc_run(work, ids, rid, struct0, before, run["algo"], p))
+            if "exception" in ro:
+                work = None
+            ob["runs"].append(ro)
+        # one more use of the same parameter object: a direct call on a fixed spectrum
+        s = np.array([float(Fraction(x)) for x in case["probe"]], dtype=float)
+        try:
+            with warnings.catch_warnings():
+                warnings.simplefilter("ignore")
+                with np.errstate(all="ignore"):
+                    new_s, s_trunc = ts.truncate_singular_values(s.copy(), p)
+            ob["probe"] = (s.tolist(), np.asarray(new_s, dtype=float).tolist(), np.asarray(s_trunc, dtype=float).tolist(), True)
+        except Exception as e:  # noqa
+            ob["probe_exception"] = f"{type(e).__name__}: {e}"
+        return ob
+
     def impl(self, ctx, cases):
         out = []
         stats = Counter()
+        hstats = Counter()
         for c in cases:
             try:
                 if c["kind"] == "sv":
@@ -1057,6 +1293,17 @@ class C10(Prop):
                     out.append(self._val_impl(c))
                 elif c["kind"] == "tsvd":
                     out.append(self._tsvd_impl(c))
+                elif c["kind"] == "hist":
+                    ob = self._hist_impl(c)
+                    out.append(ob)
+                    for run, ro in zip(c["runs"], ob["runs"]):
+                        if "calls" in ro:
+                            hstats["runs"] += 1
+                            hstats["runs that discard something"] += int(any(len(x[2]) for x in ro["calls"]))
+                            if any(o[0] in ("absorb", "replace", "legmat") for o in run["prep"]) or run["tree"] == "same":
+                                hstats["runs on a modified state re-canonicalised by the caller"] += 1
+                                if ro.get("centre_before_last_canon") == ro.get("centre"):
+                                    hstats["... where that canonical_form names the centre already recorded"] += 1
                 else:
                     ob = self._tree_impl(c)
                     out.append(ob)
@@ -1069,6 +1316,8 @@ class C10(Prop):
                 out.append({"exception": f"harness: {type(e).__name__}: {e}", "tb": traceback.format_exc()[-1500:]})
         if any(c["kind"] == "tree" for c in cases) and len(cases) > 1:
             self.tree_stats = stats
+        if hstats and len(cases) > 1:
+            self.hist_stats = hstats
         return out
 
     # ----------------------------------------------------------------------------------------
@@ -1339,6 +1588,33 @@ class C10(Prop):
                 return f"kept values {new} are not the prefix {[str(x) for x in kept]}"
         return None
 
+    def _check_call(self, case, label, call):
+        """one recorded truncate_singular_values call (full spectrum, kept, discarded, same parameter object) judged by
+        the rule of the property text with the parameter VALUES of the case: a message, None (not a spectrum: outside
+        the property), or (sum of the values the rule discards, nothing discarded)"""
+        s, new, trunc, same_params = call
+        if not same_params:
+            return f"{label} used other parameters than the ones passed in"
+        if any(s[a] < s[a + 1] for a in range(len(s) - 1)) or any(x < 0 for x in s) or not s:
+            return None                        # LAPACK contract violated: not this property
+        relx = "-inf" if case["rel"] == "-inf" else Fraction(float(case["rel"]))
+        totx = "-inf" if case["tot"] == "-inf" else Fraction(float(case["tot"]))
+        sf = [Fraction(x) for x in s]
+        cands = set()
+        for slack in (Fraction(1), 1 - Fraction(1, 10 ** 9), 1 + Fraction(1, 10 ** 9)):
+            ks = rule_from_text(sf, case["mbd"], relx, totx, case["sum_trunc"], case["sum_renorm"], slack)
+            if isinstance(ks, str):
+                return ks
+            cands |= ks
+        k = len(new)
+        if k not in cands:
+            return f"{label} keeps {k} of {s} with {self._pstr(case)}; the rule gives {sorted(cands)}"
+        if len(trunc) != len(s) - k or any(a != b for a, b in zip(trunc, s[k:])):
+            return f"{label}: second component {trunc} is not the suffix of {s}"
+        if not case["renorm"] and any(a != b for a, b in zip(new, s[:k])):
+            return f"{label}: kept values {new} are not the prefix of {s}"
+        return float(sum(sf[min(cands):])), k == len(s)
+
     def _oracle_tree(self, case, ob):
         if "exception" in ob:
             return f"{case['algo']}: raised {ob['exception']}"
@@ -1365,33 +1641,14 @@ class C10(Prop):
         if not ob["finite"]:
             return f"{case['algo']}: state not finite after truncation"
         # re-derive what each truncation discards from the recorded full spectrum
-        relx = "-inf" if case["rel"] == "-inf" else Fraction(float(case["rel"]))
-        totx = "-inf" if case["tot"] == "-inf" else Fraction(float(case["tot"]))
         disc_sum = 0.0
         nothing = True
-        for j, (s, new, trunc, same_params) in enumerate(ob["calls"]):
-            if not same_params:
-                return f"{case['algo']}: truncation {j} used other parameters than the ones passed in"
-            if any(s[a] < s[a + 1] for a in range(len(s) - 1)) or any(x < 0 for x in s) or not s:
-                return None                    # LAPACK contract violated: not this property
-            sf = [Fraction(x) for x in s]
-            cands = set()
-            for slack in (Fraction(1), 1 - Fraction(1, 10 ** 9), 1 + Fraction(1, 10 ** 9)):
-                ks = rule_from_text(sf, case["mbd"], relx, totx, case["sum_trunc"], case["sum_renorm"], slack)
-                if isinstance(ks, str):
-                    return ks
-                cands |= ks
-            k = len(new)
-            if k not in cands:
-                return (f"{case['algo']}: truncation {j} keeps {k} of {s} with {self._pstr(case)}; the rule gives {sorted(cands)}")
-            if len(trunc) != len(s) - k or any(a != b for a, b in zip(trunc, s[k:])):
-                return f"{case['algo']}: truncation {j}: second component {trunc} is not the suffix of {s}"
-            if not case["renorm"] and any(a != b for a, b in zip(new, s[:k])):
-                return f"{case['algo']}: truncation {j}: kept values {new} are not the prefix of {s}"
-            kmin = min(cands)
-            disc_sum += float(sum(sf[kmin:]))
-            if k < len(s):
-                nothing = False
+        for j, call in enumerate(ob["calls"]):
+            r = self._check_call(case, f"{case['algo']}: truncation {j}", call)
+            if not isinstance(r, tuple):
+                return r                       # a message, or None: LAPACK contract violated (not this property)
+            disc_sum += r[0]
+            nothing = nothing and r[1]
         scale = max(1.0, ob["norm"])
         if nothing and ob["err"] > 1e-10 * scale:
             return f"{case['algo']}: nothing discarded but the state moved by {ob['err']:.3e} (norm {ob['norm']:.3e})"
@@ -1401,6 +1658,33 @@ class C10(Prop):
                 return (f"{case['algo']}: state changed by {ob['err']:.6e} > (sum of discarded values {disc_sum:.6e}) * "
                         f"max(1, norm {ob['norm']:.3e}) = {bound:.6e}")
         return None
+
+    def _oracle_hist(self, case, ob):
+        """every truncation of the history is judged exactly like a tree case: by the property text with the parameter
+        VALUES the caller put into the object, on the state as it is right before the call"""
+        if ob["verdict"] != "Accept":
+            return f"valid parameters rejected: {ob['verdict']}"
+        for j, (run, ro) in enumerate(zip(case["runs"], ob["runs"])):
+            if "skipped" in ro:
+                continue
+            if "prep_exception" in ro:
+                return None                    # the preparing operations are other properties' business (C02, C03)
+            sub = dict(case, algo=run["algo"], parents=ro["parents"])
+            w = self._oracle_tree(sub, ro)
+            if w:
+                hist = [f"{'same state again' if r['tree'] == 'same' else 'new state on parents ' + str(r['parents'])}: "
+                        f"{r['prep']} then {r['algo']}" for r in case["runs"][:j + 1]]
+                extra = ""
+                if ro.get("defect") is not None:
+                    extra = (f"; right before the call the caller's canonical_form('{ro['centre']}') had returned (recorded centre "
+                             f"before it: {ro.get('centre_before_last_canon')}), isometry defect of the state w.r.t. that centre "
+                             f"{ro['defect']:.3e}")
+                return f"truncation {j + 1} of a history sharing one SVDParameters object ({' | '.join(hist)}): {w}{extra}"
+        if "probe_exception" in ob:
+            return f"truncate_singular_values({case['probe']}) with the same parameter object after the history raised {ob['probe_exception']}"
+        r = self._check_call(case, f"after {len(case['runs'])} tree truncation(s) with the same parameter object: truncate_singular_values",
+                             ob["probe"])
+        return r if isinstance(r, str) else None
 
     def _oracle_tsvd(self, case, ob):
         if "exception" in ob:
@@ -1462,6 +1746,10 @@ class C10(Prop):
             return self._oracle_val(case, ob)
         if case["kind"] == "tsvd":
             return self._oracle_tsvd(case, ob)
+        if case["kind"] == "hist":
+            if "exception" in ob:
+                return ob["exception"]
+            return self._oracle_hist(case, ob)
         return self._oracle_tree(case, ob) or self._oracle_contracts(case, ob)
 
     @staticmethod
